@@ -1090,6 +1090,7 @@ func main() {
 	vh.RegisterFunc("walk", runWalk)
 	vh.Tool("drive", driveMain)
 	vh.Tool("layout", layoutMain)
+	vh.Tool("e2e", e2eMain)
 	vh.Main()
 }
 
